@@ -136,3 +136,37 @@ Lemma mmc_skeleton_ok : mmc_skeleton =
   ; "l, V = np.linalg.eigh((A + A.T) / 2)"
   ; "A[:] = np.dot(V * np.maximum(0, l[None, :]), V.T)" ]%string.
 Proof. reflexivity. Qed.
+
+(* ---- the outer accept / reject loop as translated (with its real step-size history): what fit returns ---- *)
+Definition mmc_kept {O : Ops} (st : list (list (T O)) * list (list (T O)) * T O * list (list (T O))) : list (list (T O)) :=
+  let '(_, A_old, _, _) := st in A_old.
+
+Lemma mmc_cycle_kept {O : Ops} cycle st A sat op ob Mn :
+  mmc_kept (@mmc_cycle O cycle st A sat op ob Mn) = mmc_kept st \/
+  (sat = true /\ mmc_kept (@mmc_cycle O cycle st A sat op ob Mn) = A).
+Proof.
+  destruct st as [[[A0 Aold] alpha] Md]. unfold mmc_cycle.
+  destruct (mmc_accept cycle sat op ob) eqn:E; cbn [mmc_kept]; [right | left; reflexivity].
+  split; [|reflexivity]. unfold mmc_accept in E. apply andb_prop in E. exact (proj1 E).
+Qed.
+
+(* for every number of cycles, every projection / objective / direction / convergence oracle: the matrix kept at the end is the one
+   kept at the start (the initial matrix) or a projected iterate whose `satisfy` flag was set *)
+Theorem mmc_kept_feasible {O : Ops} : forall (orc : list (list (list (T O)) * bool * T O * T O * list (list (T O)) * bool)) cycle st,
+  mmc_kept (@mmc_cycles O cycle st orc) = mmc_kept st \/
+  exists A op ob Mn stop, In (A, true, op, ob, Mn, stop) orc /\ mmc_kept (@mmc_cycles O cycle st orc) = A.
+Proof.
+  induction orc as [|[[[[[A sat] op] ob] Mn] stop] orc IH]; intros cycle st; [left; reflexivity|].
+  cbn [mmc_cycles].
+  destruct (mmc_cycle_kept cycle st A sat op ob Mn) as [K|[-> K]].
+  - destruct stop.
+    + left. exact K.
+    + destruct (IH (S cycle) (mmc_cycle cycle st A sat op ob Mn)) as [H|[A' [op' [ob' [Mn' [stop' [Hin H]]]]]]].
+      * left. rewrite H. exact K.
+      * right. exists A', op', ob', Mn', stop'. split; [right; exact Hin | exact H].
+  - destruct stop.
+    + right. exists A, op, ob, Mn, true. split; [left; reflexivity | exact K].
+    + destruct (IH (S cycle) (mmc_cycle cycle st A true op ob Mn)) as [H|[A' [op' [ob' [Mn' [stop' [Hin H]]]]]]].
+      * right. exists A, op, ob, Mn, false. split; [left; reflexivity | rewrite H; exact K].
+      * right. exists A', op', ob', Mn', stop'. split; [right; exact Hin | exact H].
+Qed.
